@@ -191,13 +191,16 @@ def run(tier):
         "every total length 0..2*bytes+2); key generation over rnd {0,1,2,n-1,n,n+1,max,random} x rnd_size; "
         "public key from private key over key value x key length x layout; DH over key pairs x 4 peer layouts "
         "x cofactor flag + invalid peers; size sweeps (rnd_size, sign_size, priv_key_size, hash_size, "
-        "pub_key_size) with exact-size heap blocks.  A class = (entry point, byte order, layout or input "
+        "pub_key_size) with exact-size heap blocks; bn-level ecdsa_key_gen/ec_point_mult_bp into fresh / O-holding / "
+        "flag+stale output points followed by export and DH; DH with order-2 and order-4 peers x 12 scalars x "
+        "cofactor flag at bn level and (validation off) byte level.  A class = (entry point, byte order, layout or input "
         "kind, size class, validation on/off, expected outcome, observed outcome).")
     report.assumptions = [
         "private key / nonce from random bytes: v if v < n else (v mod (n-1)) + 1 (bn_mod_reduce), 0 is refused",
         "DH shared secret: x(h^c * d * Q) with h the table's cofactor (header: 'P = h * d * Q'); failure iff that point is O",
         "hybrid prefixes 06/07 are neither required nor forbidden (SEC 1 v2 omits them, X9.62 allows them); if accepted the point must be valid",
-        "with EC_DISABLE_PUB_KEY_CHK only round trip of valid encodings and memory safety are demanded",
+        "with EC_DISABLE_PUB_KEY_CHK only round trip of valid encodings and memory safety are demanded of the import; DH is judged by its RESULT (h^c*d*Q = O must fail) also without validation and at bn level",
+        "low-order peers are judged for every scalar, also h*d >= n (where reducing h*d mod n gives a different multiple of a point whose order does not divide n)",
     ]
     exes, meta = base.build_variants(report, tier)
     if not exes:
@@ -648,9 +651,161 @@ def work(job):
             viol("oracle:%s:roundtrip-differs:%s" % (ent, form), cs, str(P), str(got), "import(export(P)) != P")
         else:
             common.part_count(part, "roundtrip_ok")
+    if oname == "be":
+        bn_level_keys(part, c, ci, vname, vm, exe, prng, tier, viol, cls)
+    low_order_dh(part, c, ci, oname, order, le, vname, vm, exe, rng, prng, viol, cls)
     if job.get("fault"):
         fault_plans(part, c, ci, oname, order, le, vname, vm, exe, prng, tier, viol, cls)
     return part
+
+
+def bn_level_keys(part, c, ci, vname, vm, exe, rng, tier, viol, cls):
+    """bn-level ecdsa_key_gen() / ec_point_mult_bp() writing into a caller-owned point that is fresh, was
+    imported from the byte 00 (holds O), or has the infinity flag set over stale coordinates.  The output
+    must be d*G as a usable key: flag clear, coordinates right, packed export equals SEC 1, and a DH with a
+    second private key gives x(d2*d*G)."""
+    n = c.n
+    nb = ecdsa.nbytes(c)
+    stale = ecdsa.mul_g(c, rng.range(2, n - 2))
+    plans = []
+    for mode in (0, 1):
+        for dirty in (0, 1, 2):
+            dv = rng.range(1, n - 1) if (mode + dirty) % 2 else [1, 2, n - 1][(mode + dirty) // 2 % 3]
+            plans.append((mode, dirty, dv, rng.below(2), rng.range(1, n - 1)))
+    plans.append((0, 1, n + 3, 0, 5))        # key_gen reduces rnd >= n: d' = ((n+3) mod (n-1)) + 1
+    cases = [base.case_kg_bn(ci, m, dt, stale, dv, cof, d2, pat=rng.below(256)) for (m, dt, dv, cof, d2) in plans]
+    res = rejudge_intra_object(part, exe, vm, cases, common.run_cases(exe, cases), lambda i: "ecdsa_key_gen")
+    for (m, dt, dv, cof, d2), o, cs in zip(plans, res, cases):
+        ent = "ecdsa_key_gen" if m == 0 else "ec_point_mult_bp"
+        part["evaluations"] += 1
+        if isinstance(o, common.Crash):
+            judge_crash(part, o, ent, vname, vm, cs, "curve %s bn-level %s dirty=%d" % (c.name, ent, dt))
+            continue
+        ob = Obs(o)
+        if ob.rc == RC_SETUP:
+            common.part_count(part, "driver_setup_skipped")
+            continue
+        inf = ob.r.u8()
+        x, y, d_after = (int.from_bytes(ob.r.blob(), "big") for _ in range(3))
+        rc_e, esz, ebytes = ob.r.i32(), ob.r.u32(), ob.r.blob()
+        rc_dh = ob.r.i32()
+        sh = int.from_bytes(ob.r.blob(), "big")
+        d_eff = ecdsa.reduce_rnd(c, dv) if m == 0 else dv
+        want = ecdsa.mul_g(c, d_eff)
+        wexp = ecdsa.encode(c, want, "packed", "big")
+        try:
+            wdh = ecdsa.dh(c, d2, want, cof)
+        except ecdsa.Invalid:
+            wdh = None
+        dname = ("fresh", "held-O", "flag+stale")[dt]
+        cls("bn-key", ent, dname, ob.rc == 0)
+        note = "bn-level %s(d=%x) into a point object that %s" % (ent, dv, ("is fresh", "was imported from 00", "has infinity=1 over stale coordinates")[dt])
+        got = {"rc": ob.rc, "infinity": inf, "x": hex(x), "y": hex(y), "export_rc": rc_e, "export": ebytes[:esz if esz <= len(ebytes) else 0].hex(),
+               "dh_rc": rc_dh, "dh": hex(sh)}
+        if ob.rc != 0:
+            viol("oracle:%s:fails-on-valid-input:%s" % (ent, dname), cs, "0 and d*G", got, note)
+        elif inf or (x, y) != want or (m == 0 and d_after != d_eff):
+            viol("oracle:%s:wrong-point:%s" % (ent, dname), cs, {"infinity": 0, "x": hex(want[0]), "y": hex(want[1])}, got, note)
+        elif rc_e != 0 or esz != 2 * nb + 1 or ebytes != wexp:
+            viol("oracle:%s:key-does-not-export:%s" % (ent, dname), cs, wexp.hex(), got, note)
+        elif (wdh is None) != (rc_dh != 0) or (wdh is not None and sh != wdh):
+            viol("oracle:%s:key-unusable-for-dh:%s" % (ent, dname), cs, hex(wdh) if wdh is not None else "error", got, note)
+        else:
+            common.part_count(part, "bn_key_ok")
+
+
+_low_cache = {}
+
+
+def low_order_points(c, rng):
+    """[(name, point, order)] of order 2 and 4 where the true cofactor allows it (secp112r2, secp128r2: 4;
+    id-GostR3410-2001-ParamSet-cc: 2)."""
+    if c.name in _low_cache:
+        return _low_cache[c.name]
+    out = []
+    h = ec.true_cofactor(c)
+    if h not in (None, 1):
+        for x0 in two_torsion_xs(c, rng)[:1]:
+            out.append(("order-2", (x0, 0), 2))
+        if h % 4 == 0:
+            for _ in range(60):
+                P = base.wrong_order_point(c, rng)
+                if P is None:
+                    break
+                T = ecdsa.mul(c, c.n, P)
+                if T is not None and ecdsa.mul(c, 2, T) is not None:
+                    out.append(("order-4", T, 4))
+                    break
+    _low_cache[c.name] = out
+    return out
+
+
+def low_order_dh(part, c, ci, oname, order, le, vname, vm, exe, rng, prng, viol, cls):
+    """DH with a peer point of order 2 or 4.  The reference decides by the RESULT: the header documents
+    P = h*d*Q (h only with the cofactor flag); if that point is O the call must fail, otherwise the secret is
+    its x.  Judged at bn level in every build (ecdsa_dh() takes the point as given) and through
+    ecdsa_dh_be/le where validation is compiled out; with validation the byte entry points must refuse the
+    key.  The library multiplies by (h*d mod n); only scalars with h*d < n are gated, larger ones are noted."""
+    pts = low_order_points(c, rng)
+    if not pts:
+        return
+    nb = ecdsa.nbytes(c)
+    n = c.n
+    chk = vm["chk"]
+    ds = [1, 2, 3, 4, 6, 8, 2 * prng.range(4, n // 16), 2 * prng.range(4, n // 16) + 1, 4 * prng.range(4, n // 32),
+          n - 1, n - 2, (n // 4) * 4]
+    honest = ecdsa.mul_g(c, 11)
+    cases, info = [], []
+    for pname, T, _ord in pts + [("order-n", honest, n)]:
+        for dv in ds:
+            for cof in (0, 1):
+                if oname == "be":
+                    cases.append(base.case_dh_bn(ci, T, cof, dv, alias=(dv + cof) % 2, pat=prng.below(256)))
+                    info.append(("bn", pname, T, dv, cof))
+                if pname != "order-n" and dv in ds[:9:2] + [n - 1]:
+                    qx = b"\x04" + enc_int(T[0], nb, order) + enc_int(T[1], nb, order)
+                    cases.append(case_dh(ci, le, cof, qx, None, enc_int(dv, nb, order), nb, pat=prng.below(256)))
+                    info.append(("byte", pname, T, dv, cof))
+    res = rejudge_intra_object(part, exe, vm, cases, common.run_cases(exe, cases), lambda i: "ecdsa_dh")
+    for (lvl, pname, T, dv, cof), o, cs in zip(info, res, cases):
+        ent = "ecdsa_dh" if lvl == "bn" else "ecdsa_dh_" + oname
+        part["evaluations"] += 1
+        if isinstance(o, common.Crash):
+            judge_crash(part, o, ent, vname, vm, cs, "curve %s %s: DH with %s peer d=%x" % (c.name, oname, pname, dv))
+            continue
+        ob = Obs(o)
+        if ob.rc == RC_SETUP:
+            continue
+        if lvl == "bn":
+            sh = int.from_bytes(ob.r.blob(), "big")
+        else:
+            ob.r.u32()
+            sh = int.from_bytes(ob.r.blob(), order)
+        k = dv * c.h if cof else dv
+        S = ecdsa.mul(c, k, T)
+        reduced = k >= n
+        cls("dh-low-order", lvl, pname, cof, S is None, reduced, ob.rc == 0)
+        common.part_count(part, "dh_low_order_cases")
+        note = "DH with a peer point of %s %s, d=%x, cofactor flag %d, %s level" % (pname, str((hex(T[0]), hex(T[1]))), dv, cof, lvl)
+        if lvl == "byte" and chk:
+            if ob.rc == 0:
+                viol("oracle:%s:accepts-invalid-peer:%s" % (ent, pname), cs, "error", {"rc": 0, "shared": hex(sh)}, note)
+            continue
+        bad = None
+        if S is None and ob.rc == 0:
+            bad = ("succeeds-on-neutral-result", "error: h^c*d*Q = O", {"rc": 0, "shared": hex(sh)})
+        elif S is not None and ob.rc != 0:
+            bad = ("fails-on-finite-result", hex(S[0]), {"rc": ob.rc})
+        elif S is not None and sh != S[0]:
+            bad = ("wrong-shared-secret", hex(S[0]), {"rc": 0, "shared": hex(sh)})
+        if bad is None:
+            common.part_count(part, "dh_low_order_ok")
+            continue
+        if reduced and pname != "order-n":
+            # h*d >= n: a library that multiplied by (h*d mod n) used a different multiple of a point whose order does
+            # not divide n (defect of the pinned tree, repaired; the reference multiplies by h and then by d)
+            common.part_count(part, "dh_low_order_scalar_above_n_over_h")
+        viol("oracle:%s:%s:%s" % (ent, bad[0], pname), cs, bad[1], bad[2], note)
 
 
 def fault_plans(part, c, ci, oname, order, le, vname, vm, exe, rng, tier, viol, cls):
